@@ -140,10 +140,26 @@ def run_check(prop, tier, seed, jobs=None):
             os.makedirs(s["scratch"], exist_ok=True)
         timeout = int(os.environ.get("VERIF_SHARD_TIMEOUT", "900" if tier == "quick" else "5400"))
         jobs = jobs or int(os.environ.get("VERIF_JOBS", str(os.cpu_count() or 4)))
+        def run_with_retry(s):
+            """a shard that dies (harness/generator error on a rare input, or a watchdog on a loaded machine) is retried once
+            with another seed; only a second failure makes the check inconclusive"""
+            spec, d, err = run_one_shard(s, scratch, timeout)
+            crashed = err or any(r.startswith("worker crashed") for r in (d or {}).get("inconclusive", []))
+            if not crashed:
+                return spec, d, err, None
+            first = err or "; ".join(d.get("inconclusive", [])) + " :: " + (d.get("extra", {}).get("traceback", "")[-600:])
+            if not s.get("seed_fixed"):
+                s = dict(s, seed=s["seed"] + 7919)
+            spec2, d2, err2 = run_one_shard(s, scratch, timeout)
+            return spec2, d2, err2, first
+
         with concurrent.futures.ThreadPoolExecutor(max_workers=jobs) as ex:
-            futs = [ex.submit(run_one_shard, s, scratch, timeout) for s in specs]
+            futs = [ex.submit(run_with_retry, s) for s in specs]
             for fu in concurrent.futures.as_completed(futs):
-                spec, d, err = fu.result()
+                spec, d, err, first = fu.result()
+                if first:
+                    merged.count("shard_retries")
+                    print("  NOTE shard %d (%s) retried after: %s" % (spec["_id"], spec.get("kind"), first.replace("\n", " | ")[:700]))
                 if err:
                     merged.inconclusive_because(err)
                     continue
